@@ -311,6 +311,7 @@ pub fn gen_cfg(i: usize) -> crate::progen::Cfg {
         generic_fn_values: false,
         overlapping_impls: i % 4 < 2,
         result_only_generics: i % 4 != 1,
+        cov_shapes: i % 5 == 2,
         ..Default::default()
     }
 }
